@@ -37,6 +37,8 @@ fn main() {
         "C07" => c07::run_prop(&cli),
         "C08" => c08::run_prop(&cli),
         "C05" => c08::run_cipher_switch(&cli),
+        // C12 at the connection: the session service is asked about exactly the claimed user
+        "C12" => c01::run_filtered(&cli, Some("service-asked-about-other-user")),
         "C10" => c10::run_prop(&cli),
         other => {
             println!("[{other}] INCONCLUSIVE: vp-conn does not serve this property");
